@@ -23,7 +23,7 @@ pub struct Case {
     pub malachite: bool,
 }
 
-fn opcode(op: &str) -> Option<Vec<u8>> {
+pub fn opcode(op: &str) -> Option<Vec<u8>> {
     Some(match op {
         "if" => vec![3],
         "cons" => vec![4],
